@@ -134,6 +134,7 @@ WORDS = ["alpha", "beta", "gamma", "delta", "epsilon", "Zeta", "eta", "Theta", "
          "data42", "re-use", "it's", "a/b", "x=1", "50%", "(see", "this)", "done.", "yes,", "why?", "wow!"]
 SAFE_START = ["alpha", "beta", "gamma", "Theta", "node", "graph", "query", "The", "shard", "omega", "naïve", "Ωmega"]
 TITLE_WORDS = ["Intro", "Setup", "Usage", "Details", "Advanced", "Notes", "Reference", "Overview", "Part", "Guide", "naïve"]
+SHORT_TITLES = ["FAQ", "API", "Go", "Sub", "C", "Ab", "naï"]
 STYLE_CHARS = "=-~^\"'#*+:._`"
 LITERALS = ["x", "a*b", "f(x)", "a_b", "|pipe|", "<tag>", "a\\b", "two words", "k: v", "__init__", "*star*", "50%",
             "C:\\", "\\", "dir\\sub\\", "\\n", "a`b", "x\\ y", "**", "`"]
@@ -380,7 +381,16 @@ class Gen:
     def section(self, styles, depth, maxdepth):
         rng = self.rng
         title = [inl_text(rng.choice(TITLE_WORDS))]
-        for _ in range(rng.randint(0, 2)):
+        short = rng.random() < 0.2
+        if short:
+            # titles shorter than four characters: their adornment lines are as short as a would-be transition marker
+            t = rng.choice(SHORT_TITLES)
+            if len(t) < 3 and styles[depth][0] not in "=~^#":
+                # a one- or two-character line of `.`/`_`/`-`/`+`/`*`/`|`/`:` is a comment, an anonymous target, a bullet or a
+                # line block before it can be an adornment: that is the language, not a defect
+                t = "FAQ"
+            title = [inl_text(t)]
+        for _ in range(0 if short else rng.randint(0, 2)):
             title.append({"k": "sp"})
             title.append(rng.choice([inl_text(rng.choice(TITLE_WORDS)), {"k": "literal", "s": "x_y"}, {"k": "emph", "s": "new"},
                                      inl_text(str(rng.randint(2, 99)))]))
